@@ -191,6 +191,7 @@ func EnforceScenario(seed int64, k int, res *l2.Result) {
 	defer w.Cleanup()
 	x := &enfRun{e: e, res: res, sights: map[string]banSight{}}
 	e.onBanSeen = x.noteBan
+	e.isBanSeen = func(addr string) bool { _, ok := x.sight(addr); return ok }
 
 	// Steering only (not part of any oracle): admit one peer first, and/or
 	// let no peer serve block headers before every peer had its chance to
